@@ -1,9 +1,9 @@
 (* C02 — reported usage is recorded exactly once, in the right session's CDR.
-   Theorems on the record operations of the model; the exactly-once statement over
-   whole histories is checked on the implementation's trace by the monitor of
+   Theorems on the record operations of the model and, over whole histories, C02_exactly_once;
+   the same statement is checked on the implementation's trace by the monitor of
    lib/p_charging.py and the model is tied to the CHF record by record. *)
 From Coq Require Import List ZArith Bool.
-From Verif Require Import Charging.Servers Charging.Chf Charging.ChfProofs Charging.TimeStamp.
+From Verif Require Import Charging.Servers Charging.Chf Charging.ChfProofs Charging.HistoryProofs Charging.RecordHistory Charging.TimeStamp.
 Import ListNotations.
 Open Scope Z_scope.
 
@@ -20,6 +20,20 @@ Theorem C02_identity_kept : forall rec r,
   rec_lrsn (update_cdr rec r) = rec_lrsn rec.
 Proof. exact update_cdr_identity. Qed.
 Print Assumptions C02_identity_kept.
+
+(* Along every history, from the empty CHF: the entries held by the records of session [sid] of
+   subscriber [s] - all its records, oldest first - are exactly the containers reported by the accepted
+   create, updates and release addressed to that session, each once, in the order reported; a request for
+   another session, an unknown session or another subscriber contributes nothing to it.  (reports: the
+   create that returned reference sid contributes its usage; an update / release contributes when the
+   subscriber and the reference exist, i.e. when it is not answered 4xx.) *)
+Theorem C02_exactly_once : forall rsize usize ops d n s sid,
+  entries_of (run rsize usize (mkWorld d [] n [] []) ops) s sid =
+  reported rsize usize (mkWorld d [] n [] []) ops s sid.
+Proof.
+  intros. rewrite (history_records rsize usize ops _ s sid (empty_world_inv d n)). reflexivity.
+Qed.
+Print Assumptions C02_exactly_once.
 
 (* the opening time stamp: YYMMDDhhmmssShhmm in BCD, for every zone offset *)
 Theorem C02_timestamp : forall y mo d h mi s off,
